@@ -14,6 +14,12 @@ Monitored, fail closed:
 
   * `_split_at_comment` (the inline comment starts at the first '#' outside a string literal): the frame of its while
     loop is checked and the if/elif chain of the loop body is TRANSLATED into `split_step_gen`;
+  * (tie audit) the decorators of every scanner function (lru_cache on `_get_attribute_docstring` -> CACHED / CACHE_SIZE),
+    the module-level oracle wrappers dp_parse / inspect_getsource / inspect_getdoc (ORACLES), how FieldWrapper.__init__
+    obtains `_docstring` (try / fall-back to the empty record) and that `_help` is only written by the help property,
+    the if-chain of FieldWrapper.get_arg_options that produces the action's help= (ACTION_HELP_TABLE, TEMPORARY_TOKEN),
+    and that DataclassWrapper builds every FieldWrapper as field_wrapper_class(field, parent=self, ..) with
+    self.dataclass = the wrapped class (FIELD_WRAPPER_BUILDS);
   * three repaired places (the cache aliasing in get_attribute_docstring, the upward comment walk, the class-docstring
     entry of a class that does not declare the field): the shape before AND after each repair is recognised and a
     boolean fact FIX_ALIAS / FIX_WALK / FIX_ENTRY says which one the source has.
@@ -24,7 +30,7 @@ from __future__ import annotations
 import ast
 import copy
 
-from .pyast import Unrecognised, cstr, find_class, find_def, is_logger_call, kw_defaults, parse, unparse
+from .pyast import Unrecognised, clean, const, cstr, find_class, find_def, is_logger_call, kw_defaults, parse, unparse
 
 PARTS = {"comment_above": "PAbove", "comment_inline": "PInline", "docstring_below": "PBelow",
          "desc_from_cls_docstring": "PCls"}
@@ -411,9 +417,198 @@ def _cchar(c):
     return '""""%char' if c == '"' else f'"{c}"%char'
 
 
+# --- tie audit: sites that used to be tied by the sampled correspondence only -----------------------------------
+MONITORED = ["get_attribute_docstring", "_get_attribute_docstring", "_contains_field_definition",
+             "_line_contains_definition_for", "_is_empty", "_is_comment", "_get_comment_at_line",
+             "_get_inline_comment_at_line", "_split_at_comment", "_get_comment_ending_at_line",
+             "_get_docstring_starting_at_line"]
+
+
+def _decorators(t):
+    """(cached?, maxsize): `_get_attribute_docstring` is wrapped in functools.lru_cache(N) or not at all; no other
+    scanner function carries a decorator (the shape comparison above does not look at decorators)."""
+    cached, size = False, 0
+    for name in MONITORED:
+        decs = [unparse(d) for d in find_def(t, name).decorator_list]
+        if name == "_get_attribute_docstring" and len(decs) == 1:
+            d = find_def(t, name).decorator_list[0]
+            if (isinstance(d, ast.Call) and unparse(d.func) == "functools.lru_cache" and len(d.args) == 1 and not d.keywords
+                    and isinstance(d.args[0], ast.Constant) and isinstance(d.args[0].value, int) and d.args[0].value >= 64):
+                cached, size = True, d.args[0].value
+                continue
+        if decs:
+            raise Unrecognised(f"{name}: decorators {decs}")
+    if len([n for n in t.body if isinstance(n, (ast.FunctionDef, ast.AsyncFunctionDef)) and n.name in MONITORED]) != len(MONITORED):
+        raise Unrecognised("a scanner function is defined twice (or not at module level)")
+    return cached, size
+
+
+ORACLE_WRAPPERS = {"dp_parse": "dp.parse", "inspect_getsource": "inspect.getsource", "inspect_getdoc": "inspect.getdoc"}
+
+
+def _oracles(t):
+    """the third-party / stdlib functions the scanner is fed by (the correspondence run calls exactly these)"""
+    from .pyast import module_assign
+    out = []
+    for name, target in ORACLE_WRAPPERS.items():
+        v = module_assign(t, name)
+        if not (isinstance(v, ast.Call) and len(v.args) == 1 and not v.keywords and unparse(v.args[0]) == target
+                and isinstance(v.func, ast.Call) and unparse(v.func.func) == "functools.lru_cache"):
+            raise Unrecognised(f"{name} = {unparse(v)[:80]}")
+        out.append((name, target))
+    imports = [unparse(n) for n in t.body if isinstance(n, (ast.Import, ast.ImportFrom))]
+    for need in ("import functools", "import inspect", "import docstring_parser as dp"):
+        if need not in imports:
+            raise Unrecognised(f"docstring.py: `{need}` missing")
+    for n in ast.walk(t):
+        if isinstance(n, (ast.FunctionDef, ast.ClassDef)) and n.name in ("dp", "inspect", "functools") + tuple(ORACLE_WRAPPERS):
+            raise Unrecognised(f"docstring.py: {n.name} re-defined")
+    return out
+
+
+def _wrapper_init(fw):
+    """FieldWrapper.__init__: the docstring is fetched inside try/except (SystemExit, Exception) with the EMPTY
+    AttributeDocString as fall-back; `_help` starts as None and is assigned nowhere else but in the help property."""
+    init = [n for n in fw.body if isinstance(n, ast.FunctionDef) and n.name == "__init__"]
+    if len(init) != 1:
+        raise Unrecognised("FieldWrapper.__init__")
+    tries = [n for n in init[0].body if isinstance(n, ast.Try) and "get_attribute_docstring" in unparse(n)]
+    if len(tries) != 1:
+        raise Unrecognised("FieldWrapper.__init__: try around get_attribute_docstring")
+    tr = tries[0]
+    if ([unparse(x) for x in tr.body] != ["self._docstring = docstring.get_attribute_docstring(self.parent.dataclass, self.field.name)"]
+            or tr.orelse or tr.finalbody or len(tr.handlers) != 1):
+        raise Unrecognised("FieldWrapper.__init__: body of the try")
+    h = tr.handlers[0]
+    hb = [unparse(x) for x in h.body if not is_logger_call(x)]
+    if unparse(h.type) != "(SystemExit, Exception)" or hb != ["self._docstring = docstring.AttributeDocString()"]:
+        raise Unrecognised("FieldWrapper.__init__: fall-back of the try")
+    writes = {}
+    for fn in [n for n in fw.body if isinstance(n, ast.FunctionDef)]:
+        for n in ast.walk(fn):
+            tg = []
+            if isinstance(n, ast.Assign):
+                tg = n.targets
+            elif isinstance(n, (ast.AnnAssign, ast.AugAssign)):
+                tg = [n.target]
+            for x in tg:
+                if unparse(x) in ("self._help", "self._docstring"):
+                    writes.setdefault(unparse(x), []).append(fn.name)
+    if sorted(writes.get("self._help", [])) != ["__init__", "help", "help", "help"]:
+        raise Unrecognised(f"FieldWrapper: writes to self._help in {writes.get('self._help')}")
+    if writes.get("self._docstring") != ["__init__", "__init__"]:
+        raise Unrecognised(f"FieldWrapper: writes to self._docstring in {writes.get('self._docstring')}")
+    h0 = [n for n in init[0].body if isinstance(n, ast.AnnAssign) and unparse(n.target) == "self._help"]
+    if len(h0) != 1 or unparse(h0[0].value) != "None":
+        raise Unrecognised("FieldWrapper.__init__: initial _help")
+    par = [n for n in fw.body if isinstance(n, ast.FunctionDef) and n.name == "parent"]
+    if len(par) != 1 or [unparse(d) for d in par[0].decorator_list] != ["property"] or \
+            [unparse(x) for x in clean(par[0].body)] != ["return self._parent"]:
+        raise Unrecognised("FieldWrapper.parent")
+    if "self._parent: Any = parent" not in [unparse(x) for x in init[0].body]:
+        raise Unrecognised("FieldWrapper.__init__: self._parent")
+
+
+def _action_help(fw, hf):
+    """FieldWrapper.get_arg_options: what becomes the `help=` of the argparse action.
+    -> (table rows [(test, value)], token)"""
+    fn = [n for n in fw.body if isinstance(n, ast.FunctionDef) and n.name == "get_arg_options"]
+    if len(fn) != 1:
+        raise Unrecognised("FieldWrapper.get_arg_options")
+    def touches_help(n):
+        if isinstance(n, (ast.Assign, ast.AugAssign, ast.AnnAssign, ast.Delete)):
+            return "_arg_options['help']" in unparse(n)
+        if isinstance(n, ast.Call) and unparse(n.func) in ("_arg_options.pop", "_arg_options.setdefault"):
+            return bool(n.args) and unparse(n.args[0]) == "'help'"
+        return isinstance(n, ast.Call) and unparse(n.func) in ("_arg_options.update", "_arg_options.clear")
+    sets = [n for n in ast.walk(fn[0]) if touches_help(n)]
+    chains = [n for n in fn[0].body if isinstance(n, ast.If) and "_arg_options['help']" in unparse(n)]
+    if len(chains) != 1:
+        raise Unrecognised("get_arg_options: the if-chain that sets help")
+    from .pyast import if_chain
+    arms, els = if_chain(chains[0])
+    if els:
+        raise Unrecognised("get_arg_options: else arm of the help chain")
+    rows = []
+    tests = {"self.help": "AHasHelp", "self.default is not None": "ADefaultNotNone"}
+    vals = {"self.help": "AVHelp", "TEMPORARY_TOKEN": "AVToken"}
+    for test, body in arms:
+        if len(body) != 1 or not isinstance(body[0], ast.Assign) or unparse(body[0].targets[0]) != "_arg_options['help']":
+            raise Unrecognised("get_arg_options: arm of the help chain")
+        tk, vk = tests.get(unparse(test)), vals.get(unparse(body[0].value))
+        if tk is None or vk is None:
+            raise Unrecognised(f"get_arg_options: help arm {unparse(test)} -> {unparse(body[0].value)}")
+        rows.append(f"({tk}, {vk})")
+    if len(sets) != len(arms):
+        raise Unrecognised("get_arg_options: help is also set/removed outside the chain")
+    from .pyast import module_assign
+    token = const(module_assign(hf, "TEMPORARY_TOKEN"), str)
+    imp = [unparse(n) for n in ast.walk(parse_cache["fwt"]) if isinstance(n, ast.ImportFrom)]
+    if "from simple_parsing.help_formatter import TEMPORARY_TOKEN" not in imp:
+        raise Unrecognised("field_wrapper.py: import of TEMPORARY_TOKEN")
+    return rows, token
+
+
+def _custom_override(fw):
+    """FieldWrapper.arg_options: the generated options are overlaid with custom_arg_options (= metadata['custom_args'])"""
+    fn = [n for n in fw.body if isinstance(n, ast.FunctionDef) and n.name == "arg_options"
+          and [unparse(d) for d in n.decorator_list] == ["property"]]
+    if len(fn) != 1:
+        raise Unrecognised("FieldWrapper.arg_options")
+    body = [unparse(x) for x in clean(fn[0].body)]
+    want = ["if self._arg_options:\n    return self._arg_options", "options = self.get_arg_options()",
+            "options.update(self.custom_arg_options)", "action = options.get('action', 'store')",
+            "self._arg_options = only_keep_action_args(options, action)", "return self._arg_options"]
+    without = [x for x in want if x != "options.update(self.custom_arg_options)"]
+    cao = [n for n in fw.body if isinstance(n, ast.FunctionDef) and n.name == "custom_arg_options"]
+    if len(cao) != 1 or [unparse(x) for x in clean(cao[0].body)] != ["return self.field.metadata.get('custom_args', {})"]:
+        raise Unrecognised("FieldWrapper.custom_arg_options")
+    if body == want:
+        return True
+    if body == without:
+        return False
+    raise Unrecognised("FieldWrapper.arg_options: shape changed: " + " | ".join(body)[:300])
+
+
+def _dataclass_wrapper(dwt):
+    """DataclassWrapper.__init__: every FieldWrapper is built as field_wrapper_class(field, parent=self, ...), the default
+    class is FieldWrapper, and `self.dataclass` is the class given to the wrapper."""
+    dw = find_class(dwt, "DataclassWrapper")
+    init = [n for n in dw.body if isinstance(n, ast.FunctionDef) and n.name == "__init__"]
+    if len(init) != 1:
+        raise Unrecognised("DataclassWrapper.__init__")
+    d = kw_defaults(init[0])
+    if unparse(d.get("field_wrapper_class", ast.Constant(None))) != "FieldWrapper":
+        raise Unrecognised("DataclassWrapper: default field_wrapper_class")
+    texts = [unparse(x) for x in init[0].body]
+    for need in ("self.dataclass = dataclass", "self.field_wrapper_class = field_wrapper_class"):
+        if texts.count(need) != 1:
+            raise Unrecognised(f"DataclassWrapper.__init__: `{need}`")
+    calls = [n for n in ast.walk(init[0]) if isinstance(n, ast.Call) and unparse(n.func) == "self.field_wrapper_class"]
+    if not calls:
+        raise Unrecognised("DataclassWrapper.__init__: no FieldWrapper is built")
+    for c in calls:
+        kws = {k.arg: unparse(k.value) for k in c.keywords}
+        if [unparse(a) for a in c.args] != ["field"] or kws.get("parent") != "self":
+            raise Unrecognised(f"DataclassWrapper.__init__: {unparse(c)[:100]}")
+    for fn in [n for n in dw.body if isinstance(n, ast.FunctionDef) and n.name != "__init__"]:
+        for n in ast.walk(fn):
+            if isinstance(n, (ast.Assign, ast.AnnAssign)) and "self.dataclass" in [unparse(x) for x in (n.targets if isinstance(n, ast.Assign) else [n.target])]:
+                raise Unrecognised(f"DataclassWrapper.{fn.name} re-assigns self.dataclass")
+    return len(calls)
+
+
+parse_cache = {}
+
+
 def emit(repo: str) -> str:
     t = parse(repo, "simple_parsing/docstring.py")
     fwt = parse(repo, "simple_parsing/wrappers/field_wrapper.py")
+    parse_cache["fwt"] = fwt
+    hf = parse(repo, "simple_parsing/help_formatter.py")
+    dwt = parse(repo, "simple_parsing/wrappers/dataclass_wrapper.py")
+    cached, cache_size = _decorators(t)
+    oracles = _oracles(t)
 
     # --- literals, each function's shape ---------------------------------------------------------
     def cfd(c):
@@ -520,6 +715,14 @@ def emit(repo: str) -> str:
     if len(calls) != 1 or [unparse(a) for a in calls[0].args] != ["self.parent.dataclass", "self.field.name"] or calls[0].keywords:
         raise Unrecognised("FieldWrapper.__init__: call of get_attribute_docstring")
 
+    _wrapper_init(fw)
+    ah_rows, token = _action_help(fw, hf)
+    n_fw_calls = _dataclass_wrapper(dwt)
+    custom_overrides = _custom_override(fw)
+    hs_decs = [unparse(x) for x in hs.decorator_list]
+    if hs_decs != ["property"]:
+        raise Unrecognised(f"AttributeDocString.help_string decorators {hs_decs}")
+
     def plist(ps):
         return "[" + "; ".join(ps) + "]"
     return (
@@ -536,6 +739,16 @@ def emit(repo: str) -> str:
         f"Definition FIX_WALK : bool := {'true' if fix_walk else 'false'}.   (* comment walk stops at code lines *)\n"
         f"Definition FIX_ENTRY : bool := {'true' if fix_entry else 'false'}.  (* class-docstring entry of a non-declaring class kept *)\n"
         f"Definition FIX_ALIAS : bool := {'true' if fix_alias else 'false'}.  (* the cached AttributeDocString is copied, not aliased *)\n"
+        "(* tie audit: the lru_cache on _get_attribute_docstring; the oracles the scanner is fed by; the help= of the action *)\n"
+        f"Definition CACHED : bool := {'true' if cached else 'false'}.\n"
+        f"Definition CACHE_SIZE : nat := {cache_size}.\n"
+        "Definition ORACLES : list (string * string) := [" + "; ".join(f"({cstr(a)}, {cstr(b)})" for a, b in oracles) + "].\n"
+        f"Definition FIELD_WRAPPER_BUILDS : nat := {n_fw_calls}.  (* each one: field_wrapper_class(field, parent=self, ..) *)\n"
+        f"Definition TEMPORARY_TOKEN : string := {cstr(token)}.\n"
+        f"Definition ACTION_HELP_TABLE : list (ahtest * ahval) := [{'; '.join(ah_rows)}].\n"
+        "Definition action_help_gen := action_help TEMPORARY_TOKEN ACTION_HELP_TABLE.\n"
+        f"Definition CUSTOM_OVERRIDES : bool := {'true' if custom_overrides else 'false'}.  (* options.update(custom_arg_options) *)\n"
+        "Definition final_help_gen := final_help CUSTOM_OVERRIDES.\n"
         "(* the loop body of _split_at_comment, translated statement by statement *)\n"
         f"Definition split_step_gen (quote : option ascii) (char : ascii) : sstep :=\n  {split_step}.\n"
         "(* the model instantiated with the regenerated facts *)\n"
@@ -545,7 +758,7 @@ def emit(repo: str) -> str:
         "Definition scan_class_gen := scan_class HASH COLON EQUALS TRIPLE_S TRIPLE_D split_step_gen FIX_WALK FIX_ENTRY.\n"
         "Definition merge_gen := merge ACC_PARTS.\n"
         "Definition acc_pure_gen := acc_pure ACC_PARTS.\n"
-        "Definition get_doc_gen := get_doc ACC_PARTS FIX_ALIAS.\n"
-        "Definition run_queries_gen := run_queries ACC_PARTS FIX_ALIAS.\n"
+        "Definition get_doc_gen := get_doc ACC_PARTS FIX_ALIAS CACHED.\n"
+        "Definition run_queries_gen := run_queries ACC_PARTS FIX_ALIAS CACHED.\n"
         "Definition help_gen := help_of HELP_CHAIN.\n"
     )
